@@ -184,3 +184,39 @@ def solve_spec(d, ty):
     if res.status != 0:
         return res.status, None, None
     return 0, float(-res.fun), res.x
+
+
+def solve_rows(rows):
+    """re-solve the rows captured from the code's own PuLP model (maximise slot 25 = the objective variable, all
+    variables >= 0) with HiGHS.  -> (status, optimum).  Used to tell a CBC precision gap from a wrong formulation."""
+    idx = {}
+    for _s, _b, terms in rows:
+        for sl, m, _c in terms:
+            idx.setdefault((sl, m), len(idx))
+    if (25, 0) not in idx:
+        return 9, None
+    nv = len(idx)
+    A_ub, b_ub, A_eq, b_eq = [], [], [], []
+    for sense, rhs, terms in rows:
+        t = [(idx[(sl, m)], c) for sl, m, c in terms]
+        if sense == 0:
+            A_eq.append(t); b_eq.append(rhs)
+        elif sense < 0:
+            A_ub.append(t); b_ub.append(rhs)
+        else:
+            A_ub.append([(j, -c) for j, c in t]); b_ub.append(-rhs)
+
+    def mat(rs):
+        A = lil_matrix((len(rs), nv))
+        for i, terms in enumerate(rs):
+            for j, co in terms:
+                A[i, j] += co
+        return A.tocsr()
+    c = np.zeros(nv)
+    c[idx[(25, 0)]] = -1.0
+    res = linprog(c, A_ub=mat(A_ub) if A_ub else None, b_ub=np.array(b_ub) if A_ub else None,
+                  A_eq=mat(A_eq) if A_eq else None, b_eq=np.array(b_eq) if A_eq else None,
+                  bounds=[(0.0, None)] * nv, method="highs")
+    if res.status != 0:
+        return res.status, None
+    return 0, float(-res.fun)
